@@ -230,6 +230,71 @@ fn case_of(mut idx: u64, thorough: bool) -> Option<(usize, Vec<ColKind>, Vec<V>,
     None
 }
 
+// ---- second family: every column LAYOUT (alignment classes 1, 4, 8 bytes and variable length) x every NULL mask ----
+
+const LAYOUT_KINDS: [ColKind; 4] = [ColKind::Bool, ColKind::Int, ColKind::BigInt, ColKind::Text];
+
+fn layout_max_cols(thorough: bool) -> usize {
+    if thorough { 5 } else { 4 }
+}
+
+fn layout_value(k: ColKind, alt: bool) -> V {
+    match (k, alt) {
+        (ColKind::Bool, false) => V::Bool(true),
+        (ColKind::Bool, true) => V::Bool(false),
+        (ColKind::Int, false) => V::Int(-7),
+        (ColKind::Int, true) => V::Int(11),
+        (ColKind::BigInt, false) => V::BigInt(9),
+        (ColKind::BigInt, true) => V::BigInt(i64::MIN),
+        (ColKind::Text, false) => V::Text("xyz".into()),
+        (ColKind::Text, true) => V::Text("L".repeat(21)),
+        (ColKind::Double, false) => V::Double(0.5),
+        (ColKind::Double, true) => V::Double(-2.5),
+    }
+}
+
+/// cases per schema of n value columns: 2^n NULL masks x (no update + for each column: set to NULL / set to another value)
+fn layout_cases_for(n: usize) -> u64 {
+    (1u64 << n) * (1 + 2 * n as u64)
+}
+
+pub fn n_layout_cases(thorough: bool) -> u64 {
+    (1..=layout_max_cols(thorough)).map(|n| 4u64.pow(n as u32) * layout_cases_for(n)).sum()
+}
+
+fn layout_case_of(mut idx: u64, thorough: bool) -> Option<(usize, Vec<ColKind>, Vec<V>, Vec<Vec<(usize, V)>>)> {
+    for n in 1..=layout_max_cols(thorough) {
+        let per = layout_cases_for(n);
+        let total = 4u64.pow(n as u32) * per;
+        if idx >= total {
+            idx -= total;
+            continue;
+        }
+        let mut sc = idx / per;
+        let mut c = idx % per;
+        let mut kinds = vec![ColKind::BigInt];
+        for _ in 0..n {
+            kinds.push(LAYOUT_KINDS[(sc % 4) as usize]);
+            sc /= 4;
+        }
+        let mask = c % (1 << n);
+        c /= 1 << n;
+        let mut row = vec![key_value(ColKind::BigInt, 0)];
+        for i in 0..n {
+            row.push(if mask >> i & 1 == 1 { V::Null } else { layout_value(kinds[1 + i], false) });
+        }
+        let chain = if c == 0 {
+            vec![]
+        } else {
+            let col = ((c - 1) / 2) as usize;
+            let v = if (c - 1) % 2 == 0 { V::Null } else { layout_value(kinds[1 + col], true) };
+            vec![vec![(col, v)]]
+        };
+        return Some((1, kinds, row, chain));
+    }
+    None
+}
+
 fn show_v(v: &V) -> String {
     match v {
         V::Text(s) if s.len() > 8 => format!("Text({}B)", s.len()),
@@ -240,8 +305,8 @@ fn show_row(r: &[V]) -> String {
     format!("[{}]", r.iter().map(show_v).collect::<Vec<_>>().join(","))
 }
 
-pub fn run_case(idx: u64, thorough: bool, quirk_creator_xmin: bool, bool_trigger: bool, rep: &mut ChunkReport, side: Option<&str>) {
-    let Some((nk, kinds, row, chain)) = case_of(idx, thorough) else { return };
+pub fn run_case(idx: u64, thorough: bool, quirk_creator_xmin: bool, bool_trigger: bool, rep: &mut ChunkReport, side: Option<&str>, layouts: bool) {
+    let Some((nk, kinds, row, chain)) = (if layouts { layout_case_of(idx, thorough) } else { case_of(idx, thorough) }) else { return };
     let nvals = kinds.len() - nk;
     let desc = format!("schema {}key+{:?} row {} chain {}", nk, &kinds[nk..], show_row(&row), chain.iter().map(|s| format!("{{{}}}", s.iter().map(|(i, v)| format!("v{i}={}", show_v(v))).collect::<Vec<_>>().join(","))).collect::<Vec<_>>().join("->"));
     if let Some(p) = side {
@@ -422,7 +487,7 @@ pub fn worker(params: &Value, case: &Value) -> Value {
     let c: Chunk = serde_json::from_value(case.clone()).expect("chunk");
     let mut rep = ChunkReport::default();
     for idx in c.start..c.end {
-        run_case(idx, thorough, quirk, bool_trigger, &mut rep, if c.single && !c.side.is_empty() { Some(&c.side) } else { None });
+        run_case(idx, thorough, quirk, bool_trigger, &mut rep, if c.single && !c.side.is_empty() { Some(&c.side) } else { None }, c.group == "tuple-layouts");
     }
     serde_json::to_value(rep).unwrap()
 }
